@@ -260,28 +260,160 @@ BODY_POOL = [
 METHOD_SETS = [["post"], ["get", "post"], ["post", "put", "delete", "patch", "get", "options", "trace"]]
 
 
-def build_operation_doc(params, body, methods, method="post"):
+HTTP8 = ["get", "put", "post", "delete", "options", "head", "patch", "trace"]
+PATH_ITEM_SECTIONS = {"ref-x": ("x-path-items",), "ref-components": ("components", "x-pathItems")}
+EXTRA_FIELDS = {"summary": "users", "description": "all about users", "x-internal": True,
+                "servers": [{"url": "http://127.0.0.1:1"}]}
+# what a path-level declaration that the operation overrides looks like (same name and location, other contents)
+OVERRIDDEN_SCHEMA = {"type": "string", "minLength": 40}
+
+
+def _declaration(loc, name, req, schema):
+    d = {"name": name, "in": loc, "schema": schema}
+    if req or loc == "path":
+        d["required"] = True
+    return d
+
+
+def build_operation_doc(params, body, methods, method="post", ctx=None):
+    """The API description of one operation and of its surroundings.
+
+    ctx (all optional; absent: everything inline at the operation level, as the first generation of this generator did):
+      layout      "inline" | "ref-x" | "ref-components": the `paths` entry is the path item itself / a `$ref` into a section
+      method      the operation under test (one of `methods`)
+      extras      further fields of the path item (summary, description, servers, x-…)
+      levels      per parameter: "op" (declared by the operation), "path" (declared by the path item, inherited),
+                  "both" (declared by the path item with another schema and the opposite `required`, overridden by the
+                  operation's declaration)
+      param_refs  per parameter: the declaration is a `$ref` into components/parameters
+      first       "parameters" | "methods": which comes first in the path item
+      decoys      further entries of the path-item section (another path item with other methods)
+    """
+    ctx = ctx or {}
+    method = ctx.get("method", method)
     has_path = any(p[0] == "path" for p in params)
     path = "/p/{id}" if has_path else "/p"
-    ps = []
-    for loc, name, req, schema in params:
-        d = {"name": name, "in": loc, "schema": schema}
-        if req or loc == "path":
-            d["required"] = True
-        ps.append(d)
-    op = {"parameters": ps, "responses": {"200": {"description": "OK"}}}
+    levels = ctx.get("levels") or ["op"] * len(params)
+    refs = ctx.get("param_refs") or [False] * len(params)
+    components = {}
+
+    def place(d, i, tag):
+        if refs[i]:
+            key = f"P{i}{tag}"
+            components.setdefault("parameters", {})[key] = d
+            return {"$ref": f"#/components/parameters/{key}"}
+        return d
+
+    own, shared = [], []
+    for i, (loc, name, req, schema) in enumerate(params):
+        level = levels[i]
+        if level in ("op", "both"):
+            own.append(place(_declaration(loc, name, req, schema), i, "o"))
+        if level == "path":
+            shared.append(place(_declaration(loc, name, req, schema), i, "s"))
+        if level == "both":
+            shared.append(place(_declaration(loc, name, (not req) or loc == "path", OVERRIDDEN_SCHEMA), i, "s"))
+    op = {"parameters": own, "responses": {"200": {"description": "OK"}}}
     if body is not None:
         op["requestBody"] = {"required": True, "content": {mt: {"schema": sch} for mt, sch in body}}
+    id_shared = any(p[0] == "path" and lv in ("path", "both") for p, lv in zip(params, levels))
     item = {}
+    if shared and ctx.get("first", "parameters") == "parameters":
+        item["parameters"] = shared
     for m in methods:
         if m == method:
             item[m] = op
         else:
             o = {"responses": {"200": {"description": "OK"}}}
-            if has_path:
+            if has_path and not id_shared:
                 o["parameters"] = [{"name": "id", "in": "path", "required": True, "schema": {"type": "integer"}}]
             item[m] = o
-    return {"openapi": "3.0.2", "info": {"title": "t", "version": "1"}, "paths": {path: item}}, path, method
+    if shared and "parameters" not in item:
+        item["parameters"] = shared
+    for k in ctx.get("extras") or []:
+        item[k] = EXTRA_FIELDS[k]
+    raw = {"openapi": "3.0.2", "info": {"title": "t", "version": "1"}, "paths": {}}
+    layout = ctx.get("layout", "inline")
+    if layout == "inline":
+        raw["paths"][path] = item
+    else:
+        section = raw
+        for part in PATH_ITEM_SECTIONS[layout]:
+            section = section.setdefault(part, {})
+        if ctx.get("decoys"):
+            section["Decoy"] = {"put": {"responses": {"200": {"description": "OK"}}},
+                                "trace": {"responses": {"200": {"description": "OK"}}}}
+        section["Item"] = item
+        raw["paths"][path] = {"$ref": "#/" + "/".join(PATH_ITEM_SECTIONS[layout]) + "/Item"}
+    if components:
+        raw.setdefault("components", {}).update(components)
+    return raw, path, method
+
+
+# ---- the document context of an operation: small-scope grid + seeded random --------------------------------------------
+DOC_METHOD_SETS = [["post"], ["get", "post"], ["head", "post", "delete"], ["put", "get", "head", "patch"],
+                   ["post", "put", "delete", "patch", "get", "options", "trace"], HTTP8]
+DOC_CFGS = [None, [], ["head"], ["get", "post"], ["put", "head", "trace", "delete"], HTTP8]
+DOC_PARAM_SETS = [
+    [],
+    [("query", "q", True, {"type": "integer", "minimum": 1, "maximum": 3})],
+    [("header", "X-A", True, {"type": "string", "minLength": 2}), ("query", "r", False, {"type": "boolean"})],
+    [("path", "id", True, {"type": "integer", "minimum": 1}), ("query", "q", True, {"type": "integer", "minimum": 1, "maximum": 3}),
+     ("header", "q", False, {"type": "integer"})],                        # same name, other location: two parameters
+    [("cookie", "c", True, {"type": "string", "enum": ["a", "b"]}), ("query", "s", False, {"type": "string", "minLength": 2}),
+     ("query", "q", True, {"type": "integer", "minimum": 1, "maximum": 3})],
+]
+OBJECT_HEADER = {"type": "object", "properties": {"a": {"type": "integer"}}, "required": ["a"]}
+DOC_PARAM_SETS.append([("header", "X-Obj", True, OBJECT_HEADER), ("header", "Authorization", True, {"type": "string", "minLength": 3}),
+                       ("query", "r", False, {"type": "boolean"})])
+DOC_BODIES = [None, [("application/json", {"type": "integer", "minimum": 0, "maximum": 3})]]
+
+
+def _level_patterns(n):
+    if n == 0:
+        return [[]]
+    if n == 1:
+        return [["op"], ["path"], ["both"]]
+    base = [["op"] * n, ["path"] * n, ["both"] * n]
+    mixed = [[("op", "path", "both")[(i + k) % 3] for i in range(n)] for k in range(3)]
+    return base + mixed
+
+
+def doc_context_grid(thorough):
+    """layouts x documented-method sets x the operation's own method x configurations x where the parameters are declared.
+    Both tiers walk a diagonal through the product (every third point, every fourth in the quick tier: every factor takes every value, every pair
+    (layout, configuration) and (layout, level pattern) occurs); the thorough tier lets the operation's own method range over
+    the whole documented set, the quick tier takes one own method per (parameter set, level pattern)."""
+    layouts = ["inline", "ref-x", "ref-components"]
+    out = []
+    for pi, ps in enumerate(DOC_PARAM_SETS):
+        for li, levels in enumerate(_level_patterns(len(ps))):
+            for mi, ms in enumerate(DOC_METHOD_SETS):
+                for oi, own in enumerate(ms if thorough else [ms[(pi + li) % len(ms)]]):
+                    for ci, cfg in enumerate(DOC_CFGS):
+                        for yi, layout in enumerate(layouts):
+                            if (pi + li + mi + ci + yi + (oi if thorough else 0)) % (3 if thorough else 4) != 0:
+                                continue
+                            k = pi + li + mi + oi + ci + yi
+                            ctx = {"layout": layout, "method": own, "levels": levels, "cfg": cfg,
+                                   "extras": [["summary"], [], ["x-internal", "servers"], ["description"]][k % 4],
+                                   "param_refs": [(k + i) % 4 == 0 for i in range(len(ps))],
+                                   "first": ("parameters", "methods")[k % 2], "decoys": k % 3 == 0}
+                            out.append((ps, DOC_BODIES[k % 2 if own not in ("get", "head") else 0], ms, ctx))
+    return out
+
+
+def random_doc_context(rng, ps, methods):
+    ms = list(methods)
+    if rng.random() < 0.3 and "head" not in ms:
+        ms.append("head")
+    rng.shuffle(ms)
+    cfg = rng.choice([None, None, [], ["head"], HTTP8, sorted(rng.sample(HTTP8, rng.randint(1, 5)))])
+    return ms, {"layout": rng.choice(["inline", "ref-x", "ref-components"]), "method": rng.choice(ms),
+                "levels": [rng.choice(["op", "op", "path", "both"]) for _ in ps],
+                "param_refs": [rng.random() < 0.2 for _ in ps], "cfg": cfg,
+                "extras": rng.sample(sorted(EXTRA_FIELDS), rng.randint(0, 2)),
+                "first": rng.choice(["parameters", "methods"]), "decoys": rng.random() < 0.5}
 
 
 def operation_grid(thorough):
